@@ -8,7 +8,7 @@ from ..model import AnalysisError
 from ..report import Check
 from ..wireshape import ShapeError
 from .codecs import codec_facts
-from .purity import codec_state, encode_stream
+from .purity import no_result_caches, value_passthrough, codec_state, encode_stream
 
 RULES = {
     "R08.1": "the encoder's wire-shape term of every type-name head equals the reference "
@@ -105,8 +105,15 @@ def run(chk: Check) -> None:
             chk.ob("R08.2", "string.%s:utf-8" % direction, ok, cf.provider(sc, direction).loc(),
                    "string %s must use UTF-8 and a byte count (%s %s)" % (direction, _s(ev), problems), 2)
     _anchors(chk, cf)
+    from .c14 import _to_protobuf, _typestate
+    sub = chk.sub()
+    _typestate(sub, chk.repo.cls("AuxData"))
+    _to_protobuf(sub, chk.repo.cls("AuxData"))
+    chk.adopt(sub, None, "R08.4")
     encode_stream(chk, "R08.4")
     codec_state(chk, "R08.5")
+    no_result_caches(chk, "R08.5")
+    value_passthrough(chk, "R08.5")
 
 
 def _s(ev) -> str:
